@@ -585,3 +585,87 @@ Proof.
   replace (zlen b <? 4294967296 - 32) with true by (symmetry; apply Z.ltb_lt; lia).
   replace (zlen b mod 8 =? 0) with true by (symmetry; apply Z.eqb_eq; exact Hm). exact H.
 Qed.
+
+(* ================================================================== the symbolic-crypto hypotheses are satisfiable *)
+(* A self-delimiting byte encoding of sigblob Z Z (unary numbers), with a decoder that ignores whatever follows: an
+   instance of the section hypotheses of pe_sign_then_verify / pe_resign_history (deser_padded, ser_bytes), to show they
+   are consistent.  (A bound on the length of EVERY encoding, as an earlier version assumed, would not be.) *)
+Definition encZ (z : Z) : bytes := (if z <? 0 then 2 else 1) :: repeat 3 (Z.abs_nat z) ++ [4].
+Fixpoint count3 (l : bytes) : nat * bytes :=
+  match l with
+  | x :: r => if x =? 3 then (S (fst (count3 r)), snd (count3 r)) else (O, l)
+  | [] => (O, [])
+  end.
+Definition decZ (l : bytes) : option (Z * bytes) :=
+  match l with
+  | s :: r => match snd (count3 r) with
+              | t :: rest => if t =? 4 then Some ((if s =? 2 then - Z.of_nat (fst (count3 r)) else Z.of_nat (fst (count3 r))), rest) else None
+              | [] => None
+              end
+  | [] => None
+  end.
+Fixpoint decN (n : nat) (l : bytes) : option (list Z * bytes) :=
+  match n with
+  | O => Some ([], l)
+  | S k => match decZ l with
+           | Some (x, r) => match decN k r with Some (xs, r') => Some (x :: xs, r') | None => None end
+           | None => None
+           end
+  end.
+Definition ex_ser (b : sigblob Z Z) : bytes :=
+  encZ (sb_alg Z Z b) ++ encZ (sb_cert Z Z b) ++ encZ (sb_sig Z Z b) ++ encZ (zlen (sb_digest Z Z b)) ++ concat (map encZ (sb_digest Z Z b)).
+Definition ex_deser (l : bytes) : option (sigblob Z Z) :=
+  match decZ l with Some (a, r1) =>
+  match decZ r1 with Some (c, r2) =>
+  match decZ r2 with Some (s, r3) =>
+  match decZ r3 with Some (n, r4) =>
+  match decN (Z.to_nat n) r4 with Some (d, _) => Some (mkBlob Z Z a d c s) | None => None end
+  | None => None end | None => None end | None => None end | None => None end.
+
+Lemma count3_enc n rest : count3 (repeat 3 n ++ 4 :: rest) = (n, 4 :: rest).
+Proof. induction n as [|n IH]; [reflexivity|]. cbn [repeat app count3]. rewrite IH. reflexivity. Qed.
+Lemma decZ_enc z rest : decZ (encZ z ++ rest) = Some (z, rest).
+Proof.
+  unfold encZ, decZ. cbn [app]. rewrite <- app_assoc. cbn [app]. rewrite count3_enc. cbn [fst snd]. rewrite Z.eqb_refl.
+  destruct (z <? 0) eqn:E; [apply Z.ltb_lt in E|apply Z.ltb_ge in E]; cbn [Z.eqb Pos.eqb]; do 2 f_equal; lia.
+Qed.
+Lemma decN_enc xs : forall rest, decN (length xs) (concat (map encZ xs) ++ rest) = Some (xs, rest).
+Proof.
+  induction xs as [|x xs IH]; intros rest; [reflexivity|].
+  cbn [length map concat decN]. rewrite <- app_assoc, decZ_enc, IH. reflexivity.
+Qed.
+Lemma ex_deser_padded : forall b n, ex_deser (ex_ser b ++ zeros n) = Some b.
+Proof.
+  intros [a d c s] n. unfold ex_deser, ex_ser. cbn [sb_alg sb_digest sb_cert sb_sig].
+  rewrite <- !app_assoc. rewrite !decZ_enc. unfold zlen. rewrite Nat2Z.id. rewrite decN_enc. reflexivity.
+Qed.
+Lemma all_bytes_encZ z : all_bytes (encZ z) = true.
+Proof.
+  unfold encZ. change (?x :: ?l ++ [4]) with ([x] ++ l ++ [4]). rewrite !all_bytes_app.
+  replace (all_bytes (repeat 3 (Z.abs_nat z))) with true by (induction (Z.abs_nat z) as [|k IH]; [reflexivity|cbn; exact IH]).
+  destruct (z <? 0); reflexivity.
+Qed.
+Lemma ex_ser_bytes : forall b, all_bytes (ex_ser b) = true.
+Proof.
+  intros b. unfold ex_ser. rewrite !all_bytes_app, !all_bytes_encZ. cbn [andb].
+  induction (sb_digest Z Z b) as [|x l IH]; [reflexivity|]. cbn [map concat]. rewrite all_bytes_app, all_bytes_encZ. exact IH.
+Qed.
+
+(* key = certificate = Z, "signatures" that always verify, the identity as digest: all hypotheses of the Crypto section
+   hold, the size premise holds for signing ex_pe with key 7 and algorithm 1, and signing succeeds *)
+Definition ex_pre : bytes := match hashin ex_pe with Ok q => q | _ => [] end.
+Lemma crypto_hypotheses_satisfiable :
+  let H := fun (_ : Z) (m : bytes) => m in let pub := fun k : Z => k in let sign := fun (_ : Z) (_ : bytes) => 0 in
+  let vrfy := fun (_ : Z) (_ : bytes) (_ : Z) => true in let tbs := fun (_ : Z) (d : bytes) => d in
+  (forall k m, vrfy (pub k) m (sign k m) = true) /\
+  (forall b n, ex_deser (ex_ser b ++ zeros n) = Some b) /\ (forall b, all_bytes (ex_ser b) = true) /\
+  all_bytes ex_pe = true /\
+  (forall pre, hashin ex_pe = Ok pre -> zlen (ex_ser (mksig Z Z Z pub sign tbs 7 1 (H 1 pre))) < 4294967296 - 40) /\
+  exists g, (pre <- hashin ex_pe ;; embed ex_pe (ex_ser (mksig Z Z Z pub sign tbs 7 1 (H 1 pre)))) = Ok g.
+Proof.
+  cbv zeta. split; [reflexivity|]. split; [exact ex_deser_padded|]. split; [exact ex_ser_bytes|]. split; [vm_compute; reflexivity|].
+  assert (E : hashin ex_pe = Ok ex_pre) by (vm_compute; reflexivity).
+  split.
+  - intros pre E'. assert (P : pre = ex_pre) by congruence. subst pre. vm_compute. reflexivity.
+  - rewrite E. cbn [bind]. apply (embed_defined_hashin ex_pe _ ex_pre); [vm_compute; reflexivity|exact E|vm_compute; discriminate].
+Qed.
